@@ -217,10 +217,14 @@ impl Prop for C19 {
         let nn = 3 + r.usize(4); let node = |r: &mut Rng| format!("n{}", r.usize(nn));
         let nf = 3 + r.usize(if cfg.chance(1, 4) { 8 } else { 6 });
         let mut facts: Vec<Fact> = vec![];
-        while facts.len() < nf { let f = (node(&mut r), format!("p{}", r.usize(3)), node(&mut r)); if !facts.contains(&f) { facts.push(f); } }
+        let pred_objects = cfg.chance(1, 4); // some objects name a predicate, so constraints with a variable in predicate position can join on it
+        while facts.len() < nf { let o = if pred_objects && r.chance(1, 3) { format!("p{}", r.usize(3)) } else { node(&mut r) }; let f = (node(&mut r), format!("p{}", r.usize(3)), o); if !facts.contains(&f) { facts.push(f); } }
         let mut constraints = vec![];
         for _ in 0..(1 + r.usize(3)) {
-            let c: Vec<Pat> = match r.below(5) {
+            let c: Vec<Pat> = match r.below(8) {
+                5 => vec![("?x".into(), "?p".into(), "?x".into())],                                                                   // variable predicate: no self loops at all
+                6 => vec![("?a".into(), "?p".into(), "?b".into()), ("?a".into(), "p2".into(), "?p".into())],                          // predicate named by another fact
+                7 => vec![("?x".into(), "?p".into(), "?y".into()), ("?y".into(), "?p".into(), "?x".into())],                          // symmetric pair under one (variable) predicate
                 0 => vec![("?x".into(), "p0".into(), "?y".into()), ("?x".into(), "p1".into(), "?y".into())],                   // disjointness
                 1 => vec![("?x".into(), format!("p{}", r.usize(3)), "?y".into()), ("?x".into(), format!("p{}", r.usize(3)), "?z".into()), ("?y".into(), "p2".into(), "?z".into())],
                 2 => vec![("?x".into(), format!("p{}", r.usize(3)), node(&mut r))],                                               // single-fact denial
